@@ -167,7 +167,8 @@ def oracle(ctx, rng, n, max_steps=300):
                 res = abs(dH - dP) / scale
                 # gap side alone: enthalpy rise of the gap coolant equals what the gap tallies from the ducts
                 dHg, dE = s[1] - p[1], s[3] - p[3]
-                res2 = abs(dHg - dE) / max(abs(dHg), abs(dE), 1e-9)
+                # (absolute floor: a step in which nothing is exchanged, e.g. unheated inlet regions, compares 0 with round-off)
+                res2 = abs(dHg - dE) / max(abs(dHg), abs(dE), 1e-9, 1e-2 * abs(dP))
                 state['worst'] = max(state.get('worst', 0.0), res, res2)
                 if (res > 1e-6 or res2 > 1e-7) and not bad:
                     bad.append(dict(step=i, z=z, dz=dz, core_enthalpy_rise=dH, power_delivered=dP, rel=res,
@@ -205,6 +206,8 @@ def oracle(ctx, rng, n, max_steps=300):
         for a in r.assemblies:
             reg = a.active_region
             tot = float(np.sum(reg.ebal['duct'])) + float(reg.ebal['power'])
+            if 'duct_byp_in' in reg.ebal:   # double-ducted assembly: the bypass coolant belongs to the assembly
+                tot += float(np.sum(reg.ebal['duct_byp_in'])) + float(np.sum(reg.ebal['duct_byp_out']))
             dl = sum(float(v) for v in a._power_delivered.values())
             if abs(tot - dl) > 1e-8 * max(dl, 1.0):
                 ctx.violation("c02-adiabatic-leak", "adiabatic core: coolant of assembly %d received %.9g W, power delivered %.9g W"
